@@ -273,18 +273,60 @@ func ruleGL2(c *Ctx) *rule {
 		} else {
 			r.bad(key, badPos, bad)
 		}
-		// the captured result slice is what the enclosing function returns
+		// the captured result slice is what is remembered in SpokFile.Globs or returned by the expanding function
 		if gw.mc != nil {
-			key2 := fname(gw.fn) + " returns-collected"
+			key2 := fname(gw.fn) + " collected-slice-is-the-expansion"
 			found := false
-			for _, ret := range returnsOf(gw.fn) {
-				if len(ret.Results) == 0 {
-					continue
-				}
-				for _, o := range origins(ret.Results[0]) {
+			isCell := func(v ssa.Value) bool {
+				for _, o := range origins(v) {
 					if u, ok := o.(*ssa.UnOp); ok && u.Op == token.MUL {
 						for _, b := range gw.mc.Bindings {
 							if b == u.X {
+								return true
+							}
+						}
+					}
+				}
+				return false
+			}
+			for _, ret := range returnsOf(gw.fn) {
+				if len(ret.Results) > 0 && isCell(ret.Results[0]) {
+					found = true
+				}
+			}
+			for _, b := range gw.fn.Blocks {
+				for _, in := range b.Instrs {
+					if mu, ok := in.(*ssa.MapUpdate); ok && isFieldLoad(mu.Map, "file.SpokFile.Globs") && isCell(mu.Value) {
+						found = true
+					}
+					if ret, ok := in.(*ssa.Return); ok {
+						for _, rv := range ret.Results {
+							if isCell(rv) {
+								found = true
+							}
+						}
+					}
+				}
+			}
+			// or it flows on through a phi / local before being stored or returned
+			if !found {
+				sl := c.newSlicer()
+				sl.depth = 0
+				for _, b := range gw.fn.Blocks {
+					for _, in := range b.Instrs {
+						var vals []ssa.Value
+						if mu, ok := in.(*ssa.MapUpdate); ok && isFieldLoad(mu.Map, "file.SpokFile.Globs") {
+							vals = append(vals, mu.Value)
+						}
+						if ret, ok := in.(*ssa.Return); ok {
+							vals = append(vals, ret.Results...)
+						}
+						if len(vals) == 0 {
+							continue
+						}
+						res := sl.run(vals...)
+						for _, bnd := range gw.mc.Bindings {
+							if res.has(bnd) {
 								found = true
 							}
 						}
@@ -292,9 +334,9 @@ func ruleGL2(c *Ctx) *rule {
 				}
 			}
 			if found {
-				r.ok(key2, c.ipos(gw.call), "the function returns the slice the callback appends to")
+				r.ok(key2, c.ipos(gw.call), "the slice the callback appends to is what is remembered / returned")
 			} else {
-				r.bad(key2, c.ipos(gw.call), "the slice filled by the callback is not what the expanding function returns")
+				r.bad(key2, c.ipos(gw.call), "the slice filled by the callback is neither stored in SpokFile.Globs nor returned")
 			}
 		}
 	}
@@ -309,6 +351,7 @@ func ruleGL3(c *Ctx) *rule {
 		// fsys
 		sl := c.newSlicer()
 		sl.depth = 3
+		sl.fieldStop = true
 		fres := sl.run(gw.call.Common().Args[0])
 		key := fname(gw.fn) + " GlobWalk fsys"
 		if fres.hasCall("os.DirFS") && fres.hasField("file.SpokFile.Dir") {
@@ -322,6 +365,7 @@ func ruleGL3(c *Ctx) *rule {
 		transformed := ""
 		ps := c.newSlicer()
 		ps.depth = 3
+		ps.fieldStop = true
 		pres := ps.run(pat)
 		for _, v := range pres.order {
 			switch x := v.(type) {
@@ -345,8 +389,10 @@ func ruleGL3(c *Ctx) *rule {
 		switch {
 		case transformed != "":
 			r.bad(key, c.ipos(gw.call), "the pattern is rewritten ("+transformed+") before it is matched")
-		case !pres.hasField("task.Task.GlobDependencies") || !pres.hasField("task.Task.GlobOutputs"):
-			r.bad(key, c.ipos(gw.call), "the pattern handed to GlobWalk does not come from both Task.GlobDependencies and Task.GlobOutputs (fields: "+join(pres.fieldKeys())+")")
+		case !pres.hasField("task.Task.GlobDependencies") && !pres.hasField("task.Task.GlobOutputs") && unboundParam(c, pres, gw.fn):
+			r.ok(key, c.ipos(gw.call), "the pattern is a parameter of an exported function that the program itself does not call")
+		case !pres.hasField("task.Task.GlobDependencies") && !pres.hasField("task.Task.GlobOutputs"):
+			r.bad(key, c.ipos(gw.call), "the pattern handed to GlobWalk does not come from Task.GlobDependencies / Task.GlobOutputs (fields: "+join(pres.fieldKeys())+")")
 		default:
 			r.ok(key, c.ipos(gw.call), "the declared patterns of GlobDependencies and GlobOutputs reach GlobWalk unchanged")
 		}
@@ -400,46 +446,65 @@ func ruleGL3(c *Ctx) *rule {
 			}
 		}
 	}
-	// Globs[k] = expand(k)
+	// Globs[k] = <the expansion of k>: for every GlobWalk whose callback fills a captured slice, each store into SpokFile.Globs
+	// of something derived from that slice must store the slice itself, under the pattern that was walked
 	n := 0
-	for _, f := range c.ModFuncs {
-		for _, b := range f.Blocks {
+	for _, gw := range c.globWalks() {
+		if gw.mc == nil {
+			continue
+		}
+		isCell := func(v ssa.Value) bool {
+			os := origins(v)
+			if len(os) == 0 {
+				return false
+			}
+			nCell := 0
+			for _, o := range os {
+				if isNilConst(o) {
+					continue // the error path of an inlined expansion helper
+				}
+				nCell++
+				u, ok := o.(*ssa.UnOp)
+				if !ok || u.Op != token.MUL {
+					return false
+				}
+				hit := false
+				for _, b := range gw.mc.Bindings {
+					if b == u.X {
+						hit = true
+					}
+				}
+				if !hit {
+					return false
+				}
+			}
+			return nCell > 0
+		}
+		for _, b := range gw.fn.Blocks {
 			for _, in := range b.Instrs {
 				mu, ok := in.(*ssa.MapUpdate)
 				if !ok || !isFieldLoad(mu.Map, "file.SpokFile.Globs") {
 					continue
 				}
-				// only stores of expansion results (not the empty placeholders)
 				sl := c.newSlicer()
 				sl.depth = 0
-				vres := sl.run(mu.Value)
-				var expandCall *ssa.Call
-				for _, v := range vres.order {
-					if call, ok := v.(*ssa.Call); ok {
-						for _, callee := range c.callees(call) {
-							if inModule(callee) && c.reachesCallee(callee, "github.com/bmatcuk/doublestar/v4.GlobWalk") {
-								expandCall = call
-							}
-						}
+				res := sl.run(mu.Value)
+				derived := false
+				for _, bnd := range gw.mc.Bindings {
+					if res.has(bnd) {
+						derived = true
 					}
 				}
-				if expandCall == nil {
+				if !derived {
 					continue
 				}
 				n++
-				key := fmt.Sprintf("%s Globs[k]=expand(k)#%d", fname(f), n)
-				same := false
-				for _, a := range expandCall.Common().Args {
-					if a == mu.Key || sameOrigins(a, mu.Key) {
-						same = true
-					}
-				}
-				whole := isResultOf(mu.Value, expandCall, 0)
+				key := fmt.Sprintf("%s Globs[k]=expansion(k)#%d", fname(gw.fn), n)
 				switch {
-				case !same:
-					r.bad(key, c.ipos(mu), "the expansion is stored under a key that is not the expanded pattern")
-				case !whole:
+				case !isCell(mu.Value):
 					r.bad(key, c.ipos(mu), "what is remembered for the pattern is not the expansion itself but something derived from it (filtered, merged or de-duplicated against other patterns): the pattern no longer denotes every file it matches")
+				case !samePlace(mu.Key, gw.call.Common().Args[1]):
+					r.bad(key, c.ipos(mu), "the expansion is stored under a key that is not the expanded pattern")
 				default:
 					r.ok(key, c.ipos(mu), "the expansion itself, stored under the pattern that was expanded")
 				}
@@ -454,7 +519,12 @@ func ruleGL4(c *Ctx) *rule {
 		Statement: "on the way from SpokFile.Run to GlobWalk the only guards are loop conditions, error checks and the 'already expanded' test taken on its miss side; a hit is only reported for a non-empty remembered expansion",
 		Necessity: "any other guard leaves some declared pattern unexpanded (it then denotes no files: the task never re-runs / --clean removes nothing); a hit on the empty placeholder registered at load time would do the same for every pattern"}
 	runM := c.method("file", "SpokFile", "Run")
+	onWay := 0
 	for _, gw := range c.globWalks() {
+		if gw.fn != runM && !c.reachesFn(runM, gw.fn) {
+			continue // an expansion used elsewhere (e.g. --clean): not what the run depends on
+		}
+		onWay++
 		// call chain: walk up from gw.fn to runM through module call sites
 		type link struct {
 			site ssa.CallInstruction
@@ -545,6 +615,30 @@ func ruleGL4(c *Ctx) *rule {
 			} else {
 				r.bad(key, c.pos(hf.Pos()), "the already-expanded test reports a hit for the empty placeholder that file.New registers for every pattern: no pattern would ever be expanded")
 			}
+		}
+	}
+	if onWay == 0 {
+		r.bad("file.(*SpokFile).Run expands-globs", c.pos(runM.Pos()), "no glob expansion is reachable from file.(*SpokFile).Run")
+	}
+	// both kinds of pattern are expanded before the run
+	{
+		key := "file.(*SpokFile).Run expands dependency and output patterns"
+		fields := map[string]bool{}
+		for _, gw := range c.globWalks() {
+			if gw.fn != runM && !c.reachesFn(runM, gw.fn) {
+				continue
+			}
+			ps := c.newSlicer()
+			ps.depth = 3
+			ps.fieldStop = true
+			for _, k := range ps.run(gw.call.Common().Args[1]).fieldKeys() {
+				fields[k] = true
+			}
+		}
+		if fields["task.Task.GlobDependencies"] && fields["task.Task.GlobOutputs"] {
+			r.ok(key, c.pos(runM.Pos()), "patterns of GlobDependencies and GlobOutputs both reach GlobWalk")
+		} else {
+			r.bad(key, c.pos(runM.Pos()), "not both Task.GlobDependencies and Task.GlobOutputs reach GlobWalk on the way from SpokFile.Run")
 		}
 	}
 	return r
@@ -770,7 +864,7 @@ func ruleFD1(c *Ctx) *rule {
 		}
 		et.domLatch = true
 		for _, latch := range fw.loop.latchs {
-			if !b.Dominates(latch) {
+			if !dominates(b, latch) {
 				et.domLatch = false
 			}
 		}
@@ -796,7 +890,7 @@ func ruleFD1(c *Ctx) *rule {
 	}
 	// FD2 alternative: a pre-loop test relating start and stop that returns early
 	for _, b := range fw.fn.Blocks {
-		if fw.loop.body[b] || !b.Dominates(fw.loop.header) {
+		if fw.loop.body[b] || !dominates(b, fw.loop.header) {
 			continue
 		}
 		if iff, ok := lastInstr(b).(*ssa.If); ok {
@@ -1042,7 +1136,7 @@ func ruleFD5(c *Ctx) *rule {
 			if l == fw.loop || !fw.loop.body[l.header] {
 				continue
 			}
-			if !l.header.Dominates(b) {
+			if !dominates(l.header, b) {
 				after = false
 			}
 		}
@@ -1074,4 +1168,17 @@ func fsProperties() []*propertySpec {
 			Assumptions: []string{"filepath.Dir(d) == d exactly at a file-system root; os.ReadDir returns all entries of a directory"},
 			Rules:       []func(*Ctx) *rule{ruleFD1, ruleFD3, ruleFD4, ruleFD5, ruleFD6}},
 	}
+}
+
+// unboundParam: the slice ends in a parameter of fn, and fn has no caller in the module (exported API entry).
+func unboundParam(c *Ctx, res *sliceResult, fn *ssa.Function) bool {
+	if len(c.callersOf(fn)) > 0 {
+		return false
+	}
+	for _, p := range res.params {
+		if p.Parent() == fn {
+			return true
+		}
+	}
+	return false
 }
